@@ -637,6 +637,9 @@ def load_text(text, schema_asts, tmpdir, rec_unused=None):
         return C._validate(raw, schemas)
 
 
+INI_TEXTS = []
+
+
 def format_stage(chk, scratch, schemas, base):
     from mopidy import config as C
 
@@ -705,6 +708,10 @@ def format_stage(chk, scratch, schemas, base):
             for display, disable in ((False, False), (True, False), (False, True)):
                 o = run_format(ss, cfg, display, disable)
                 outs[(display, disable)] = o
+                if o[0] == "text" and len(INI_TEXTS) < (300 if chk.tier == "quick" else 3000):
+                    INI_TEXTS.append(o[1])
+                    if disable:   # the initial file with its comment marks removed
+                        INI_TEXTS.append("\n".join(ln[1:] if ln.startswith("#") else ln for ln in o[1].split("\n")))
                 if o[0] == "raise-other" or (o[0] == "raise" and o[1] != 0):
                     exn = o[1] if o[0] == "raise-other" else ["ValueError", "TypeError", "AttributeError"][o[1]]
                     chk.monitor_failure("serialize_total", {"call": "_format", "exception": exn},
@@ -794,6 +801,10 @@ def format_stage(chk, scratch, schemas, base):
             ok = False
             chk.corr_failure("format", kept[si * per + i])
     chk.obligation("corr:format", "correspondence", ok)
+    # the INI layer: the configparser model (Ini.v) against configparser on every text _format wrote
+    import c14
+
+    c14.ini_stage(chk, INI_TEXTS, soups=0.3)
 
 
 def gen_direct_config(rng):
@@ -929,6 +940,7 @@ def run(chk):
     c12.COQ_IMPORTS = COQ_IMPORTS
     scratch = cfglib.Scratch()
     chk.scratch = scratch
+    INI_TEXTS.clear()
     try:
         schemas, base = c12.bundled()
         bundled_types = [t for s in schemas for t in ([s[2]] if s[0] == "map" else [t for _, t in s[2]])]
